@@ -6,7 +6,7 @@ from http://www.mac-guyver.com/switham/2020/03/HyperbolicPairing/hyperbolic_pair
 """
 
 from functools import cache
-from math import floor, sqrt, log
+from math import floor, isqrt, log
 
 import numpy as np
 import scipy.optimize
@@ -21,7 +21,8 @@ def a_n(n):
 
     :return: the sequence of the sum of the divisor of k for k in [1,n]
     """
-    sqrt_x = floor(sqrt(n))
+    # integer square root: floor(sqrt(n)) in floating point rounds up to m for n = m**2 - 1, m > 2**26
+    sqrt_x = isqrt(n)
     res = 2 * sum(n // k for k in range(1, sqrt_x + 1)) - sqrt_x**2
 
     return res
